@@ -166,7 +166,7 @@ H_LCOMMIT = {"fn": "vh_leader_commit", "what": "the commit case of leaderLoop (o
 H_LAPPLY = {"fn": "vh_leader_apply", "what": "the applyCh case of leaderLoop with 1-2 queued futures, with and without a leadership transfer in progress", "bounds": "W=3",
             "covers": ["apply.dispatched", "apply.refused"]}
 H_GATE = {"fn": "vh_gate", "what": "a membership request offered to leaderLoop: consumed only when latest==committed and an own-term entry is committed; then appendConfigurationEntry",
-          "bounds": "N=2 servers, W=3, arbitrary request", "covers": ["gate.open", "gate.closed", "gate.transfer", "gate.rejected", "gate.appended"]}
+          "bounds_quick": "N=2 servers, W=3 with one log shape, arbitrary request", "bounds_thorough": "all log shapes", "thorough": {"max_paths": 300000}, "covers": ["gate.open", "gate.closed", "gate.transfer", "gate.rejected", "gate.appended"]}
 H_INSTALL = {"fn": "vh_install_snapshot", "what": "installSnapshot (FSM goroutine running) on arbitrary follower log shapes, gap-tolerant and monotonic stores, snapshot index anywhere in the sender's log",
              "bounds_quick": "W=2", "bounds_thorough": "W=3", "covers": ["install.success"]}
 H_INSTALL_F = {"fn": "vh_install_faults", "what": "installSnapshot with every snapshot-store / copy / FSM.Restore fault and every term relation", "bounds": "W=1",
@@ -187,7 +187,7 @@ CHECKS["C04"]["assumptions"] = CHECKS["C04"]["assumptions"] + [D3_NOTE]
 CHECKS["C02"]["harnesses"] += [H_FSM, H_LCOMMIT, H_INSTALL, H_INSTALL_F]
 CHECKS["C02"]["assumptions"] = CHECKS["C02"]["assumptions"] + [D3_NOTE]
 CHECKS["C05"]["harnesses"] += [H_REPL, H_DISPATCH, H_LCOMMIT, H_SETUP]
-CHECKS["C07"]["harnesses"] += [H_GATE, H_LCOMMIT, H_CAND]
+CHECKS["C07"]["harnesses"] += [H_GATE, H_LCOMMIT, H_CAND, H_VOTE]
 
 CHECKS["C08"] = {
     "only": ["C08."],
@@ -271,3 +271,14 @@ CHECKS["C10"] = {
     "assumptions": ["durable image: log contiguous; with snapshots the log's first index <= newest snapshot index + 1; without snapshots the log starts at 1; terms <= stable term"],
     "harnesses": [H_NEWRAFT],
 }
+
+H_SESSION = {"fn": "vh_catchup_session", "what": "two real objects: a freshly elected leader runs replicateTo against a follower whose transport delivers each AppendEntries to the follower's real appendEntries; "
+             "follower log arbitrary (stale suffix, shorter, longer, compacted to its snapshot) related to the leader's only by log matching and leader completeness; runs until caught up",
+             "bounds_quick": "W=2, all entries Command, MaxAppendEntries=1, at most 2W+3 RPCs (checked)", "bounds_thorough": "W=3, Command/Noop, MaxAppendEntries in {1,2}",
+             "covers": ["session.done", "session.fed-fsm"], "opts": {"max_paths": 200000}, "thorough": {"max_paths": 2000000, "max_seconds": 14000}}
+H_SESSION_THOROUGH = dict(H_SESSION, quick={"skip": True})
+CHECKS["C12"]["harnesses"] += [H_SESSION]
+CHECKS["C02"]["harnesses"] += [H_SESSION_THOROUGH]
+CHECKS["C04"]["harnesses"] += [H_SESSION_THOROUGH]
+CHECKS["C05"]["harnesses"] += [H_SESSION_THOROUGH]
+CHECKS["C12"]["explanation"] += " SESSION: a fresh leader's replicateTo runs against a real follower object until nextIndex passes the end: the follower's log then equals the leader's above its snapshot, no stale entry is left, the FSM was fed only the leader's committed entries, within 2W+3 RPCs."
